@@ -84,6 +84,8 @@ def items(tier):
     add("correct-user-module", mod="wrong", kappa_one=True, relative_dx=False, seeds="use_df")
     add("zero-structure", mod="einsum", expr="dot2", relative_dx=False, seeds="use_df", zero_entry=True)
     add("zero-structure-off", mod="einsum", expr="dot2", relative_dx=False, seeds="use_df", zero_entry=True, keep_zero=False)
+    add("zero-structure-rel", mod="einsum", expr="dot2", relative_dx=True, seeds="use_df", zero_entry=True)
+    add("zero-structure-off-rel", mod="einsum", expr="dot2", relative_dx=True, seeds="use_df", zero_entry=True, keep_zero=False)
     # inputs that are SignalSlices whose getter returns a copy (index array / boolean mask): the base signal must be restored
     add("slice-indexarray", mod="slice", index="array", relative_dx=False, seeds="use_df")
     add("slice-boolmask", mod="slice", index="mask", relative_dx=True, seeds="use_df")
@@ -251,7 +253,7 @@ def scenario(V, P, cfg):
             if is_zero and cfg.get("keep_zero", True) and np.ndim(xs):
                 continue
             cplx_in = isinstance(e, (C, complex, np.complexfloating))
-            sf = (abs(e) if cfg["relative_dx"] else 1)
+            sf = (abs(e) if (cfg["relative_dx"] and not is_zero) else 1)      # an exactly zero entry is perturbed by dx itself
             for part in (("re", "im") if cplx_in else ("re",)):
                 for j, so in enumerate(outs):
                     if k >= len(calls):
@@ -376,9 +378,15 @@ def replay(cfg, label, env, case):
     V = Vals(env=env)
     if label.startswith("exception:"):
         try:
-            scenario(V, None, cfg)
+            obs = scenario(V, None, cfg)
         except Exception as e:
             return dict(reproduced=type(e).__name__ == label.split(":", 1)[1], detail="%s: %s" % (type(e).__name__, str(e)[:300]))
+        if label == "exception:ZeroDivisionError":
+            # exact arithmetic stops at a division by an exact zero; IEEE arithmetic goes on with inf/nan: the reported
+            # analytical / numerical values must be finite numbers
+            bad = {k: repr(v) for k, v in (obs or {}).items()
+                   if k[:2] in ("an", "fd") and not np.all(np.isfinite(np.asarray(v, dtype=complex)))}
+            return dict(reproduced=bool(bad), detail=dict(non_finite_reported_values=bad) if bad else "no exception and finite values on the real library")
         return dict(reproduced=False, detail="no exception on the real library")
     from .common import NumProver
     P = NumProver(rtol=1e-6)
